@@ -5,8 +5,8 @@ CONSTANTS
  Dev = "none"
  FixedOrder = TRUE
  Paths <- MCPaths
- MaxOps = 5
- WithFF = FALSE
+ MaxOps = 4
+ WithFF = TRUE
  HDev = "none"
 INVARIANT ReadIsCurrent
 INVARIANT FsHoldsWrite
